@@ -134,6 +134,12 @@ func (tf *TermFacets) Terms() []*TermFacet {
 }
 
 func (tf *TermFacets) TrimToTopN(n int) {
+	// forget the trimmed terms, so that a later Add of such a term (when
+	// results are merged) lists it again instead of updating an entry
+	// that is no longer part of the list
+	for _, trimmed := range tf.termFacets[n:] {
+		delete(tf.termLookup, trimmed.Term)
+	}
 	tf.termFacets = tf.termFacets[:n]
 }
 
